@@ -2,7 +2,8 @@
   C04 — uniform scaling of all lengths (definitions only; no Mathlib).
 
   `Scalable.scale k x` multiplies every *absolute length* inside `x` by `k` and leaves everything dimensionless
-  (percentages, flex factors, aspect ratios, enums, flags, paint order, child indices) unchanged.  All instances are
+  (percentages, flex factors, `fr` factors, aspect ratios, enums, flags, paint order, child indices, grid placements)
+  unchanged.  All instances are
   at `Rat` (the instance at which theorems are stated).
 
   `scaleProg k p` is the image of an interaction program under scaling: every `call` input and every layout that is
@@ -55,7 +56,43 @@ instance {β : Type} [Scalable β] : Scalable (LPA β) :=
 
 instance {β : Type} [Scalable β] : Scalable (MarginSet β) := ⟨fun k m => ⟨scale k m.positive, scale k m.negative⟩⟩
 
-/-- every length of a style; NOT `aspectRatio`, `flexGrow`, `flexShrink`, percentages, enums -/
+/-! grid track sizing functions (`Model/GridTypes.lean`): `length` and `fit-content(px)` are scaled; percentages,
+`fr` factors, keywords, repetition counts and placements are not -/
+
+instance : Scalable (GridTracks.MinTrack Rat) :=
+  ⟨fun k f => match f with
+    | .length v => .length (scale k v)
+    | .percent v => .percent v
+    | .auto => .auto
+    | .minContent => .minContent
+    | .maxContent => .maxContent⟩
+
+instance : Scalable (GridTracks.MaxTrack Rat) :=
+  ⟨fun k f => match f with
+    | .length v => .length (scale k v)
+    | .percent v => .percent v
+    | .auto => .auto
+    | .minContent => .minContent
+    | .maxContent => .maxContent
+    | .fitContentPx v => .fitContentPx (scale k v)
+    | .fitContentPercent v => .fitContentPercent v
+    | .fr v => .fr v⟩
+
+instance : Scalable (GridTracks.TrackFn Rat) := ⟨fun k f => ⟨scale k f.min, scale k f.max⟩⟩
+
+instance : Scalable (GridTracks.TrackDef Rat) :=
+  ⟨fun k d => match d with
+    | .single f => .single (scale k f)
+    | .rep r fs => .rep r (scale k fs)⟩
+
+/-- the grid fields of a style: the lengths inside `grid_template_rows/columns` and `grid_auto_rows/columns` -/
+instance : Scalable (GridExt Rat) :=
+  ⟨fun k g =>
+    { g with templateRows := scale k g.templateRows, templateColumns := scale k g.templateColumns,
+             autoRows := scale k g.autoRows, autoColumns := scale k g.autoColumns }⟩
+
+/-- every length of a style, the grid track lists included; NOT `aspectRatio`, `flexGrow`, `flexShrink`, percentages,
+`fr` factors, enums -/
 instance : Scalable (Style Rat) :=
   ⟨fun k s =>
     { s with
@@ -68,7 +105,8 @@ instance : Scalable (Style Rat) :=
       padding := scale k s.padding
       border := scale k s.border
       gap := scale k s.gap
-      flexBasis := scale k s.flexBasis }⟩
+      flexBasis := scale k s.flexBasis
+      grid := scale k s.grid }⟩
 
 instance : Scalable (MeasureSpec Rat) :=
   ⟨fun k m => match m with
